@@ -25,7 +25,8 @@ def site_lines():
     return {(fn.name, n.lineno): lab for fn, n, lab in gen_policy.reload_site_nodes(mod)}
 
 
-SCENARIOS = ['main-edit-with-dir-override', 'dir-edit', 'permissive-default-rule', 'deprecated-defaults']
+SCENARIOS = ['main-edit-with-dir-override', 'dir-edit', 'permissive-default-rule', 'deprecated-defaults',
+             'dir-edit-no-overwrite']
 
 
 def build(scn, root):
@@ -43,6 +44,14 @@ def build(scn, root):
         def change():
             fs.write_main({'p': 'role:main_new', 'q': 'role:main_q'}, 'json')
     elif scn == 'dir-edit':
+        fs.write_main({'p': 'role:main', 'q': 'role:main_q'}, 'json')
+        fs.write('policy.d', 'o.yaml', {'p': 'role:dir_old'}, 'json')
+
+        def change():
+            fs.write('policy.d', 'o.yaml', {'p': 'role:dir_new'}, 'json')
+    elif scn == 'dir-edit-no-overwrite':
+        # an enforcer built with overwrite=False merges instead of replacing
+        kw['overwrite'] = False
         fs.write_main({'p': 'role:main', 'q': 'role:main_q'}, 'json')
         fs.write('policy.d', 'o.yaml', {'p': 'role:dir_old'}, 'json')
 
